@@ -47,6 +47,8 @@ type c14View struct {
 	cur c14Pt
 	// liCut: located instructions added to a cut (CutLI)
 	liCut map[*cut]map[c14LI]bool
+	// triCut: edges of a cut that count only when their source block was entered from a given predecessor
+	triCut map[*cut]map[[3]*ssa.BasicBlock]bool
 	// inCarried: nesting depth of carriedField (a carrier reached through another carrier)
 	inCarried int
 }
@@ -59,6 +61,11 @@ type c14Pt struct {
 	// known about the error it returned (prunes the caller's `err != nil` test)
 	errOf *ssa.Call
 	errSt NilStatus
+	// pred: the block control came from when it entered b at its first instruction (nil otherwise)
+	pred *ssa.BasicBlock
+	// the value most recently tested against nil on this path and the outcome
+	nvVal ssa.Value
+	nvSt  NilStatus
 }
 
 // c14NewView builds the view of root; expand decides which static callees are
@@ -350,6 +357,14 @@ func (v *c14View) walk(starts []c14Pt, target func(ssa.Instruction) bool, cu *cu
 		if only < 0 && pt.errOf != nil {
 			only = c14ErrBranch(b, pt.errOf, pt.errSt)
 		}
+		// a nil test at the end of b: decided if it repeats the last one on this path; remembered otherwise
+		tested, nilIdx := c14NilTestOf(b, pt.pred)
+		if only < 0 && tested != nil && pt.nvVal == tested && pt.nvSt != MaybeNil {
+			only = nilIdx
+			if pt.nvSt == NonNil {
+				only = 1 - nilIdx
+			}
+		}
 		for i, s := range b.Succs {
 			if only >= 0 && i != only {
 				continue // the branch is decided by a constant argument / by the error just returned
@@ -357,7 +372,20 @@ func (v *c14View) walk(starts []c14Pt, target func(ssa.Instruction) bool, cu *cu
 			if cu != nil && cu.edges[Edge{b, s}] {
 				continue
 			}
-			stack = append(stack, c14Pt{ctx: pt.ctx, b: s, errOf: pt.errOf, errSt: pt.errSt})
+			if cu != nil && pt.pred != nil && v.triCut != nil && v.triCut[cu][[3]*ssa.BasicBlock{pt.pred, b, s}] {
+				continue
+			}
+			if pt.pred != nil && c14PhiInfeasible(pt.pred, b, i) {
+				continue // the branch condition is a phi that is a constant when coming from pred
+			}
+			np := c14Pt{ctx: pt.ctx, b: s, errOf: pt.errOf, errSt: pt.errSt, pred: b, nvVal: pt.nvVal, nvSt: pt.nvSt}
+			if tested != nil {
+				np.nvVal, np.nvSt = tested, NonNil
+				if i == nilIdx {
+					np.nvSt = IsNil
+				}
+			}
+			stack = append(stack, np)
 		}
 	}
 	return false, nil
@@ -1308,4 +1336,187 @@ func (v *c14View) PathLoads(path string) []c14LI {
 		}
 	})
 	return out
+}
+
+// CutPredEdge adds to a cut the edge from→to restricted to paths that entered
+// `from` coming from pred (needed when the branch condition is a phi, e.g. a
+// materialised `a && b`).
+func (v *c14View) CutPredEdge(cu *cut, tris ...[3]*ssa.BasicBlock) *cut {
+	if v.triCut == nil {
+		v.triCut = map[*cut]map[[3]*ssa.BasicBlock]bool{}
+	}
+	m := v.triCut[cu]
+	if m == nil {
+		m = map[[3]*ssa.BasicBlock]bool{}
+		v.triCut[cu] = m
+	}
+	for _, t := range tris {
+		m[t] = true
+	}
+	return cu
+}
+
+// c14PhiInfeasible: block b ends in `if phi` with phi defined in b, and the value
+// arriving from pred is a boolean constant that contradicts successor index si.
+func c14PhiInfeasible(pred, b *ssa.BasicBlock, si int) bool {
+	if len(b.Instrs) == 0 {
+		return false
+	}
+	ifi, ok := b.Instrs[len(b.Instrs)-1].(*ssa.If)
+	if !ok {
+		return false
+	}
+	cond, neg := ifi.Cond, false
+	for {
+		u, isNot := cond.(*ssa.UnOp)
+		if !isNot || u.Op != token.NOT {
+			break
+		}
+		cond, neg = u.X, !neg
+	}
+	phi, ok := cond.(*ssa.Phi)
+	if !ok || phi.Block() != b {
+		return false
+	}
+	for j, p := range b.Preds {
+		if p != pred {
+			continue
+		}
+		k, isK := phi.Edges[j].(*ssa.Const)
+		if !isK || k.Value == nil || k.Value.Kind() != constant.Bool {
+			return false
+		}
+		val := constant.BoolVal(k.Value) != neg
+		return (si == 0) != val
+	}
+	return false
+}
+
+// PhiBoolTests: branch conditions that are phis merging boolean constants with
+// values of `vals` (a materialised `x && y` / `x || y`): edges on which such a
+// value is known true / false.  Plain edges hold for every way into the block,
+// triples (pred, block, succ) only when the block is entered from pred.
+func (v *c14View) PhiBoolTests(vals map[ssa.Value]bool) (trueE, falseE []Edge, trueTri, falseTri [][3]*ssa.BasicBlock) {
+	for _, f := range v.Funcs() {
+		for _, ifi := range Ifs(f) {
+			b := ifi.Block()
+			cond, neg := ifi.Cond, false
+			for {
+				u, isNot := cond.(*ssa.UnOp)
+				if !isNot || u.Op != token.NOT {
+					break
+				}
+				cond, neg = u.X, !neg
+			}
+			phi, ok := cond.(*ssa.Phi)
+			if !ok || phi.Block() != b {
+				continue
+			}
+			tIdx, fIdx := 0, 1
+			if neg {
+				tIdx, fIdx = 1, 0
+			}
+			allFalse, allTrue := true, true
+			for _, e := range phi.Edges {
+				if k, isK := e.(*ssa.Const); isK && k.Value != nil && k.Value.Kind() == constant.Bool {
+					if constant.BoolVal(k.Value) {
+						allFalse = false
+					} else {
+						allTrue = false
+					}
+				}
+			}
+			for j, e := range phi.Edges {
+				x, xneg := e, false
+				for {
+					u, isNot := x.(*ssa.UnOp)
+					if !isNot || u.Op != token.NOT {
+						break
+					}
+					x, xneg = u.X, !xneg
+				}
+				if !vals[x] {
+					continue
+				}
+				// phi true from this pred  => e true;  phi false from this pred => e false
+				triT := [3]*ssa.BasicBlock{b.Preds[j], b, b.Succs[tIdx]}
+				triF := [3]*ssa.BasicBlock{b.Preds[j], b, b.Succs[fIdx]}
+				if !xneg {
+					trueTri, falseTri = append(trueTri, triT), append(falseTri, triF)
+				} else {
+					trueTri, falseTri = append(trueTri, triF), append(falseTri, triT)
+				}
+				// and-phi: the true edge implies every merged value true; or-phi: the false edge implies every value false
+				if allFalse {
+					ed := Edge{b, b.Succs[tIdx]}
+					if !xneg {
+						trueE = append(trueE, ed)
+					} else {
+						falseE = append(falseE, ed)
+					}
+				}
+				if allTrue {
+					ed := Edge{b, b.Succs[fIdx]}
+					if !xneg {
+						falseE = append(falseE, ed)
+					} else {
+						trueE = append(trueE, ed)
+					}
+				}
+			}
+		}
+	}
+	return
+}
+
+// c14NilTestOf: block b ends in `if x == nil` / `if x != nil`; returns x (a phi of
+// b resolved for the predecessor the block was entered from) and the index of the
+// successor taken when x is nil.
+func c14NilTestOf(b, pred *ssa.BasicBlock) (ssa.Value, int) {
+	if len(b.Instrs) == 0 {
+		return nil, 0
+	}
+	ifi, ok := b.Instrs[len(b.Instrs)-1].(*ssa.If)
+	if !ok {
+		return nil, 0
+	}
+	cond, neg := ifi.Cond, false
+	for {
+		u, isNot := cond.(*ssa.UnOp)
+		if !isNot || u.Op != token.NOT {
+			break
+		}
+		cond, neg = u.X, !neg
+	}
+	bo, ok := cond.(*ssa.BinOp)
+	if !ok || (bo.Op != token.EQL && bo.Op != token.NEQ) {
+		return nil, 0
+	}
+	var x ssa.Value
+	if isNilConst(bo.Y) {
+		x = bo.X
+	} else if isNilConst(bo.X) {
+		x = bo.Y
+	} else {
+		return nil, 0
+	}
+	if phi, isPhi := x.(*ssa.Phi); isPhi && phi.Block() == b {
+		if pred == nil {
+			return nil, 0
+		}
+		found := false
+		for j, p := range b.Preds {
+			if p == pred {
+				x, found = phi.Edges[j], true
+			}
+		}
+		if !found {
+			return nil, 0
+		}
+	}
+	nilIdx := 0
+	if (bo.Op == token.NEQ) != neg {
+		nilIdx = 1
+	}
+	return x, nilIdx
 }
